@@ -640,7 +640,16 @@ def match_interior(t0, t1, T, ny, nx, margin):
     return rows(t0, 0, 0), rows(t1, T.dx, T.dy)
 
 
-def compare_finder(R, api, t0, t1, T, ny, nx, margin, detail):
+def compare_finder(R, api, t0, t1, T, ny, nx, margin, detail, srcs=()):
+    # sanity (keeps the relation from being vacuous when the reported positions are nonsense, e.g. cutout-relative):
+    # at least one of the bright blobs of the scene is reported within 2.5 pixels, in both frames
+    for t, ddx, ddy, which in ((t0, 0, 0, 'original'), (t1, T.dx, T.dy, 'canvas')):
+        if t is not None and len(t) >= 2 and srcs:
+            x, y = val(t['xcentroid']) - ddx, val(t['ycentroid']) - ddy
+            near = min(np.min(np.hypot(x - s['x0'], y - s['y0'])) for s in srcs)
+            R.ok(api, 'reported positions lie on the scene sources (sanity)', near <= 2.5,
+                 lambda: dict(detail, frame=which, xcentroid=js(x), ycentroid=js(y),
+                              scene_sources=[(s['x0'], s['y0']) for s in srcs]))
     r0, r1 = match_interior(t0, t1, T, ny, nx, margin)
     n_all = (0 if t0 is None else len(t0))
     R.skip(api, 'source-within-margin-of-frame-edge', n_all - len(r0))
@@ -681,7 +690,7 @@ def g_starfinders(sc, T, R, grng):
     f = DAOStarFinder(**kw)
     margin = max(f.kernel.xradius, f.kernel.yradius) + 2
     compare_finder(R, 'DAOStarFinder', f(d, **mk), DAOStarFinder(**kw)(D, **mkT), T, ny, nx, margin,
-                   {'params': kw, 'mask': use_mask})
+                   {'params': kw, 'mask': use_mask}, sc['srcs'])
     # IRAFStarFinder
     kw = dict(threshold=grng.uniform(3.0, 8.0), fwhm=grng.uniform(2.5, 4.0), sigma_radius=grng.choice([1.5, 2.0]),
               minsep_fwhm=grng.choice([1.5, 2.5]), exclude_border=grng.random() < 0.5,
@@ -689,7 +698,7 @@ def g_starfinders(sc, T, R, grng):
     f = IRAFStarFinder(**kw)
     margin = max(f.kernel.xradius, f.kernel.yradius, int(f.min_separation) + 1) + 2
     compare_finder(R, 'IRAFStarFinder', f(d, **mk), IRAFStarFinder(**kw)(D, **mkT), T, ny, nx, margin,
-                   {'params': kw, 'mask': use_mask})
+                   {'params': kw, 'mask': use_mask}, sc['srcs'])
     # StarFinder with an asymmetric (rotated elliptical Gaussian) kernel of odd, unequal shape
     ky, kx = grng.choice([(7, 9), (9, 7), (7, 7), (9, 11)])
     yy, xx = np.mgrid[0:ky, 0:kx]
@@ -703,7 +712,7 @@ def g_starfinders(sc, T, R, grng):
     t0 = StarFinder(kernel=kern.copy(), **kw)(d.copy(), **mk)
     t1 = StarFinder(kernel=kern.copy(), **kw)(D.copy(), **mkT)
     compare_finder(R, 'StarFinder', t0, t1, T, ny, nx, margin,
-                   {'params': kw, 'kernel_shape': (ky, kx), 'kernel_theta': th, 'mask': use_mask})
+                   {'params': kw, 'kernel_shape': (ky, kx), 'kernel_theta': th, 'mask': use_mask}, sc['srcs'])
 
 
 # ======================================================================================
